@@ -37,7 +37,29 @@ BadMsg ==
     \o EncodeNamePlain(IF t = 41 THEN <<>> ELSE OwnerName) \o BE16(t) \o BE16(1) \o <<0, 0, 0, 0>> \o BE16(Len(bad)) \o bad
     \o <<1, 122, 0, 0, 1, 0, 1, 0, 0, 0, 0, 0, 0>>     \* bytes that look like a following record
 
-Emit == PrintT(<<"CASE", ToJson([t |-> t, f |-> f, bad |-> bad,
+\* The same record as a third-party encoder may send it: after a question for c.b.a (so that c.b.a, b.a, a
+\* and the root are at offsets 12, 14, 16, 18), with the owner and EVERY name of the RDATA that is one of
+\* those four written as a bare pointer (RFC 1035 4.1.4; receivers decompress whatever the type, RFC 3597 4).
+\* Only for types whose schema has a name.
+Lc == <<99>>
+QName == <<Lc, Lb, La>>
+PtrTo(v) == CASE v = QName -> <<192, 12>> [] v = <<Lb, La>> -> <<192, 14>> [] v = <<La>> -> <<192, 16>> [] v = <<>> -> <<192, 18>>
+PtrAble(v) == v \in {QName, <<Lb, La>>, <<La>>, <<>>}
+HasName == bad = <<>> /\ t # 41 /\ \E i \in 1 .. Len(Schema(t)) : Schema(t)[i].t = "N"
+RECURSIVE EncFieldsP(_, _, _)
+EncFieldsP(sc, v, i) ==
+  IF i > Len(sc) THEN <<>>
+  ELSE (IF sc[i].t = "N" /\ PtrAble(v[i]) THEN PtrTo(v[i]) ELSE EncField(sc[i], v[i], SubSeq(v, 1, i - 1)))
+       \o EncFieldsP(sc, v, i + 1)
+RdP == EncFieldsP(Schema(t), f, 1)
+MsgP == HdrEncode(4660, {"qr"}, 0, 0, 1, 1, 0, 0) \o EncodeNamePlain(QName) \o BE16(255) \o BE16(1)
+          \o <<192, 12>> \o BE16(t) \o BE16(1) \o <<0, 0, 1, 44>> \o BE16(Len(RdP)) \o RdP
+PacketP == [id |-> 4660, fs |-> 32768, opcode |-> 0, rcode |-> 0, opt |-> <<>>,
+            qd |-> <<[name |-> QName, qtype |-> 255, qclass |-> 1, unicast |-> FALSE]>>,
+            an |-> <<[RecOf EXCEPT !.name = QName]>>, ns |-> <<>>, ar |-> <<>>]
+PtrInverse == HasName => LET d == RefDecode(MsgP) IN d.ok /\ d.exact /\ d.end = Len(MsgP) /\ d.pkt = PacketP
+
+Emit == PrintT(<<"CASE", ToJson([t |-> t, f |-> f, bad |-> bad, msgp |-> IF HasName THEN MsgP ELSE <<>>,
                                  pkt |-> IF bad = <<>> THEN <<PacketOf>> ELSE <<>>,
                                  msg |-> IF bad = <<>> THEN RefEncodePlain(PacketOf) ELSE BadMsg])>>)
 
